@@ -142,12 +142,17 @@ def number(prj):
             if "body" in st:
                 go(st["body"])
     go(prj["items"])
+    for f in prj.setdefault("files", []):
+        go(f["items"])
     return prj
 
 
 def render(prj):
-    """-> (text, lines) where lines = [{aid, line, col, text}] locates every assertion's expression (1-based)."""
-    out, lines = [], []
+    """-> (text, lines, extra): text of the entry file, lines = [{aid, line, col, text}] locating every assertion's expression
+    (1-based, in the file that contains it), extra = {file name: text} of the importable files."""
+    prj.setdefault("files", [])
+    outs, lines = {}, []
+    out = []
     banks = []
     for d in prj["segdefs"]:
         if d["bank"] not in banks:
@@ -178,6 +183,8 @@ def render(prj):
                 out.append(pad + ".const " + st["name"] + " = " + render_expr(st["e"]))
             elif k == "setpc":
                 out.append(pad + "* = " + render_expr(st["e"]))
+            elif k == "import":
+                out.append(pad + '.import * from "%s"' % st["file"])
             elif k == "data":
                 out.append(pad + WNAME[st["w"]] + " " + ", ".join(render_expr(e) for e in st["es"]))
             elif k == "loop":
@@ -199,7 +206,12 @@ def render(prj):
             else:
                 raise ValueError(k)
     go(prj["items"], 0)
-    return "\n".join(out) + "\n", lines
+    text = "\n".join(out) + "\n"
+    for f in prj["files"]:
+        del out[:]
+        go(f["items"], 0)
+        outs[f["name"]] = "\n".join(out) + "\n"
+    return text, lines, outs
 
 
 def from_tlc_case(line):
@@ -225,10 +237,10 @@ def parse_output(stdout, stderr):
     for line in stderr.splitlines():
         m = RE_TEST.match(line)
         if m:
-            obs["tests"].append({"name": m.group(1), "verdict": m.group(2)})
+            obs["tests"].append({"name": norm_name(m.group(1)), "verdict": m.group(2)})
             continue
         if line.startswith("test: "):
-            cur = {"name": line[6:], "line": 0, "col": 0, "msg": "", "pc": -1, "sp": -1, "a": -1, "x": -1, "y": -1, "p": 0}
+            cur = {"name": norm_name(line[6:]), "line": 0, "col": 0, "msg": "", "pc": -1, "sp": -1, "a": -1, "x": -1, "y": -1, "p": 0}
             obs["failures"].append(cur)
             continue
         m = RE_CPU.match(line)
@@ -246,6 +258,8 @@ def parse_output(stdout, stderr):
     obs["ndiags"] = len(diags)
     # the assembler rejected the project: nothing was run (outside C18; the judge only notes it)
     obs["buildFailed"] = (not obs["tests"]) and (not obs["summary"]) and len(diags) > 0
+    # tests were run, then an error ended the run before the summary
+    obs["aborted"] = bool(obs["tests"]) and (not obs["summary"]) and "error:" in stdout and "panicked at" not in stderr
     return obs
 
 
@@ -260,7 +274,7 @@ def parse_trace(path):
         ev = json.loads(line)
         if ev["ev"] == "start":
             base = ev["base"]
-            cur = {"test": ev["test"], "pc": ev["pc"], "image": [{"a": base + i, "b": b} for i, b in enumerate(ev["data"]) if b != 0],
+            cur = {"test": norm_name(ev["test"]), "pc": ev["pc"], "image": [{"a": base + i, "b": b} for i, b in enumerate(ev["data"]) if b != 0],
                    "steps": [], "end": "none"}
             runs.append(cur)
         elif ev["ev"] == "step" and cur is not None:
@@ -271,13 +285,24 @@ def parse_trace(path):
     return runs
 
 
-def run_project(mos, d, text, timeout=10):
+IMPORT_SCOPE = re.compile(r"\$scope_\d+")
+
+
+def norm_name(name):
+    """The scope an import creates is anonymous (`$scope_<n>`); the specification calls it `$import`."""
+    return IMPORT_SCOPE.sub("$import", name)
+
+
+def run_project(mos, d, text, timeout=10, extra=None):
     """Write the project into directory d, run `mos test` there, return (obs, runs, raw)."""
     os.makedirs(d, exist_ok=True)
     with open(os.path.join(d, "mos.toml"), "w") as f:
         f.write('[build]\nentry = "main.asm"\n')
     with open(os.path.join(d, "main.asm"), "w") as f:
         f.write(text)
+    for name, t in (extra or {}).items():
+        with open(os.path.join(d, name), "w") as f:
+            f.write(t)
     tr = os.path.join(d, "trace.ndjson")
     if os.path.exists(tr):
         os.remove(tr)
@@ -739,15 +764,19 @@ class Gen:
             inside, outside = [], []
             for nm, sb, is_out in extra:
                 (outside if is_out else inside).append(sb)
-            # rare shapes with recorded findings: `* =' in front of the first instruction (the runner starts the cpu at the
-            # directive's address), ram16($ffff) (crash), an instruction touching $ffff (crash inside the emulator)
+            # rare shapes: `* =' in front of the first instruction, ram16($ffff) (wraps), an instruction touching $ffff (finding: crash
+            # inside the emulator)
             q = r.random()
             if any(st.get("mn") == "sed" for st in body):
                 q = max(q, 0.04) if q >= 0.03 else q      # keep the crash shapes out of tests on which the spec is silent (decimal add)
             if q < 0.03:
                 body = [setpc(binop("+", pc(), num(r.choice([2, 16, 256]))))] + body
-            elif q < 0.04 and ti == ntests - 1:
-                body.append(assert_(binop("==", ram(num(0xffff, "hex"), word=True), num(0)), None))
+            elif q < 0.04:
+                # a word at the last address wraps around: high byte from $0000
+                lo, hi = r.randrange(256), r.randrange(256)
+                body += [insn("lda", "imm", self.lit(lo)), insn("sta", "dir", num(0xffff, "hex")), insn("lda", "imm", self.lit(hi)),
+                         insn("sta", "dir", num(0)),
+                         assert_(binop("==", ram(num(0xffff, "hex"), word=True), self.lit(lo + 256 * hi if r.random() < 0.8 else lo)), None)]
             elif q < 0.05 and ti == ntests - 1:
                 body.append(insn("jmp", "ind", num(0xffff, "hex")))
             tail = [insn("brk")] if (r.random() < 0.9 or inside or self.vectors) else []
@@ -772,4 +801,11 @@ class Gen:
             items.append(useseg("db", [data(1, [num(34)])]))
             items.append(useseg("va", [data(2, [num(x, "hex") for x in self.bank_vectors["sa"]])]))
             items.append(useseg("vb", [data(2, [num(x, "hex") for x in self.bank_vectors["sb"]])]))
-        return number({"segdefs": segdefs, "items": items})
+        files = []
+        if not banked and ntests >= 1 and r.random() < 0.2:
+            # the last test (with the subroutines written behind it) lives in an imported file
+            idx = max(i for i, st in enumerate(items) if st["k"] == "test" or (st["k"] == "label" and st["hasBody"] and st["body"] and st["body"][0]["k"] == "test"))
+            files = [{"name": "lib.asm", "items": items[idx:]}]
+            imp = {"k": "import", "file": "lib.asm", "sid": "$import"}
+            items = ([imp] + items[:idx]) if r.random() < 0.5 else (items[:idx] + [imp])
+        return number({"segdefs": segdefs, "files": files, "items": items})
